@@ -754,7 +754,7 @@ def run(ck):
     ck.prove([], TARGETS, theorems())
     mode = probe_mode()
     ck.extra['start_mode_of_code_under_test'] = mode
-    notes = {'__text_mut__': 3}
+    notes = {'__text_mut__': 2}
     if mode not in ('last', 'merge'):
         ck.broken_tie('SDF model correspondence (start)', f'SdfTransformer.start follows neither modelled behaviour: {mode}')
         mode = 'last'
